@@ -232,6 +232,37 @@ static int on_pen_event(TickitPen *pen, TickitEventFlags flags, void *info, void
 struct tbeh { int used; int ev; int ret; int id; int nacts; struct act acts[MAXA]; };
 static struct tbeh TBEH[MAXB]; static int nTBEH;
 
+static int heldi(void) { return TK && tk_refs > 0 && alive(TK); }
+static int heldx(int i) { return i >= 0 && i < nX && Xref[i] > 0 && alive(X[i]); }
+
+/* watches of the toplevel instance (tickit_watch_later / tickit_watch_timer_after_msec / _at_tv): behaviour tables again */
+struct wbeh { int used; int timer; int pending; void *watch; int nacts; struct act acts[MAXA]; };
+static struct wbeh WBEH[MAXB]; static int nWBEH;
+static int on_watch(Tickit *t, TickitEventFlags flags, void *info, void *user);
+
+/* an instant of the harness's clock (ms since its start) as the library's clock shows it */
+static struct timeval clock_at(long ms)
+{
+  return (struct timeval){ .tv_sec = 1000000 + ms / 1000, .tv_usec = (ms % 1000) * 1000 };
+}
+
+/* what a handler bound on the terminal or a watch may do besides the window operations: drop / take a reference to the
+ * terminal (t, T), register a timer for an instant of the harness's clock - possibly one that has passed - (a<ms>) or a
+ * deferred call (l); the watch registered that way does nothing when it fires */
+static void top_act(struct act a)
+{
+  if(a.kind == 't') { if(heldt()) { tt_refs--; tickit_term_unref(tt); } }
+  else if(a.kind == 'T') { if(heldt()) { tt_refs++; tickit_term_ref(tt); } }
+  else if(a.kind == 'a' || a.kind == 'l') {
+    if(!heldi() || nWBEH >= MAXB) return;
+    struct wbeh *b = &WBEH[nWBEH++];
+    b->used = 1; b->timer = a.kind == 'a'; b->pending = 1; b->nacts = 0;
+    if(b->timer) { struct timeval at = clock_at(a.arg); b->watch = tickit_watch_timer_at_tv(TK, &at, 0, on_watch, b); }
+    else b->watch = tickit_watch_later(TK, 0, on_watch, b);
+  }
+  else simple_op(a.kind, a.arg, NULL);
+}
+
 static int on_term_event(TickitTerm *term, TickitEventFlags flags, void *info, void *user)
 {
   (void)term;
@@ -243,20 +274,9 @@ static int on_term_event(TickitTerm *term, TickitEventFlags flags, void *info, v
   int ret = b->ret, n = b->nacts;
   struct act acts[MAXA];
   memcpy(acts, b->acts, sizeof acts);
-  for(int i = 0; i < n; i++) {
-    if(acts[i].kind == 't') { if(heldt()) { tt_refs--; tickit_term_unref(tt); } }
-    else if(acts[i].kind == 'T') { if(heldt()) { tt_refs++; tickit_term_ref(tt); } }
-    else simple_op(acts[i].kind, acts[i].arg, NULL);
-  }
+  for(int i = 0; i < n; i++) top_act(acts[i]);
   return ret;
 }
-
-static int heldi(void) { return TK && tk_refs > 0 && alive(TK); }
-static int heldx(int i) { return i >= 0 && i < nX && Xref[i] > 0 && alive(X[i]); }
-
-/* watches of the toplevel instance (tickit_watch_later / tickit_watch_timer_after_msec): behaviour tables again */
-struct wbeh { int used; int timer; int pending; void *watch; int nacts; struct act acts[MAXA]; };
-static struct wbeh WBEH[MAXB]; static int nWBEH;
 
 static int on_watch(Tickit *t, TickitEventFlags flags, void *info, void *user)
 {
@@ -268,11 +288,7 @@ static int on_watch(Tickit *t, TickitEventFlags flags, void *info, void *user)
   int n = b->nacts;
   struct act acts[MAXA];
   memcpy(acts, b->acts, sizeof acts);
-  for(int i = 0; i < n; i++) {
-    if(acts[i].kind == 't') { if(heldt()) { tt_refs--; tickit_term_unref(tt); } }
-    else if(acts[i].kind == 'T') { if(heldt()) { tt_refs++; tickit_term_ref(tt); } }
-    else simple_op(acts[i].kind, acts[i].arg, NULL);
-  }
+  for(int i = 0; i < n; i++) top_act(acts[i]);
   return 0;
 }
 
@@ -666,7 +682,7 @@ static void engine_op(int argc, char **argv)
     if(!heldi()) { obs("skip"); dump(); return; }
     tk_refs--; tickit_unref(TK); obs("ok"); dump(); return;
   }
-  if((strcmp(op, "ilater") == 0 && argc >= 1) || (strcmp(op, "itimer") == 0 && argc >= 2)) {
+  if((strcmp(op, "ilater") == 0 && argc >= 1) || ((strcmp(op, "itimer") == 0 || strcmp(op, "itimerat") == 0) && argc >= 2)) {
     if(!heldi() || nWBEH >= MAXB) { obs("skip"); dump(); return; }
     struct wbeh *b = &WBEH[nWBEH++];
     b->used = 1; b->timer = op[1] == 't'; b->pending = 1; b->nacts = 0;
@@ -675,7 +691,8 @@ static void engine_op(int argc, char **argv)
       b->acts[b->nacts].arg = atoi(argv[k] + 1);
       b->nacts++;
     }
-    if(b->timer) b->watch = tickit_watch_timer_after_msec(TK, A(1), 0, on_watch, b);
+    if(b->timer && op[6] == 'a') { struct timeval at = clock_at(A(1)); b->watch = tickit_watch_timer_at_tv(TK, &at, 0, on_watch, b); }
+    else if(b->timer) b->watch = tickit_watch_timer_after_msec(TK, A(1), 0, on_watch, b);
     else b->watch = tickit_watch_later(TK, 0, on_watch, b);
     obs("ok"); dump(); return;
   }
